@@ -59,6 +59,11 @@ def fam_fuse(tier):
         yield (f"fuse2|{x}|{y}",
                prog(["do i = 1, n", "  " + x, "end do",
                      "do j = 1, n", "  " + y, "end do"]))
+    # same bounds but different steps / start
+    for lohi2 in ["1, n, 2", "1, n, 1", "2, n", "1, n, m", "n, 1, -1"]:
+        yield (f"fuse4|{lohi2}",
+               prog(["do i = 1, n", "  a(i) = 1.0", "end do",
+                     f"do i = {lohi2}", "  b(i) = 2.0", "end do"]))
     # bounds that are only symbolically equal / not equal
     for hi2 in ["n", "n+0", "n*1", "m", "n+1-1"]:
         yield (f"fuse3|{hi2}",
@@ -72,7 +77,7 @@ def fam_swap(tier):
               "c(i,j) = c(i+1,j-1) * 2.0", "t = t * 0.5 + c(i,j)", "a(j) = a(i) + 1.0",
               "c(i,j) = a(i) * b(j)", "c(j,i) = c(i,j)", "kout = i * 10 + j"]
     nests = [("1", "n", "1", "m+1"), ("1", "4", "1", "n"), ("n", "1, -1", "1", "3"),
-             ("1", "n", "j", "4"), ("1", "n", "1", "3, 2")]
+             ("1", "n", "j", "4"), ("1", "n", "1", "3, 2"), ("1", "n", "1", "j"), ("1", "4", "1", "m+j")]
     for (jl, jh, il, ih), b in itertools.product(nests, bodies):
         yield (f"swap|{jl},{jh}|{il},{ih}|{b}",
                prog([f"do j = {jl}, {jh}", f"  do i = {il}, {ih}", "    " + b,
@@ -171,7 +176,7 @@ def applications(fam):
     from psyclone.psyir import transformations as T
     from psyclone.psyir.nodes import Assignment, Loop
     apps = []
-    if fam in ("fuse", "fuse2", "fuse3", "lvfuse"):
+    if fam in ("fuse", "fuse2", "fuse3", "fuse4", "lvfuse"):
         apps.append(("LoopFuseTrans", lambda r: T.LoopFuseTrans().apply(
             _loops(r)[0], _loops(r)[1])))
     if fam in ("swap", "nest", "lvnest"):
